@@ -50,10 +50,18 @@ CONTRACTS = ["np.linalg.qr (through _build_Q) returns a basis Q; the kernels are
              "(all reductions as left-to-right sums: NumPy's pairwise/BLAS order differs by rounding only)",
              "Np.expI t = np.exp(1j*t) = cos t + i sin t;  np.nan_to_num is the identity on finite values (identity over the reals)"]
 ASSUMPTIONS = ["rounding / fastmath re-association are covered by the stated tolerance, not by theorem",
+               "the scatter statistic M2 is additionally held to the forward bound of the TWO-PASS evaluation of the definition (2 E s + E^2 + reduction, "
+               "E = per-segment rounding budget of the cross product, s = sqrt(M2); see m2_tight_tol), i.e. relative to the scatter and the rounding of "
+               "each z_k, not to |mean z|^2; measured on the unchanged library the used fraction of that budget stays below 1% on all backends",
                "theorems are over ℝ for the Lean translation of the kernels' source (Numba, CUDA and, through the whole-array NumPy contracts "
                "listed in the trusted base, the NumPy fallbacks); the translation is executed in Float against the real functions each run"]
 RULE = ("cases = (backend function, record(s), L, start vector incl. repeated/unsorted/extreme starts, window with random signs, "
-        "omega in {0, pi, tiny, on-bin, fractional}); distinct by (function, L, K, omega class, order); non-trivial = K>=2 or L>=3")
+        "omega in {0, pi, tiny, on-bin, fractional}); distinct by (function, L, K, omega class, order); non-trivial = K>=2 or L>=3; "
+        "PLUS near-identical-segment records (carrier of period P dividing the segment spacing, common to both channels, with independent noise "
+        "1e-10..1e-6 of it | exactly periodic | phase-locked sinusoids | constant | DC + relative noise | repeated starts) x K in {2,3,17,256} x "
+        "unsorted / sorted / repeated starts x 6 Numba + 6 NumPy + 6 CUDA-simulator functions, and SpectrumAnalyzer.compute_single_bin (numba, numpy; "
+        "orders -1..2; auto, cross): M2 of EVERY case is also held to the two-pass budget relative to the scatter (m2_tight_tol); there "
+        "non-trivial = K>=2 and that budget < u*|mean|^2/4 (a variance formula that cancels against |mean|^2 would be seen)")
 
 NUMBA = ["_stats_win_only_auto", "_stats_win_only_csd", "_stats_detrend0_auto", "_stats_detrend0_csd", "_stats_poly_auto", "_stats_poly_csd"]
 U = 2.0 ** -53
@@ -160,6 +168,61 @@ def tolerances(L, omega, S1, S2, x1, x2, starts, w, order, Q):
         raw2 *= (1 + amp)
     a, b = raw1, raw2
     return (g * a * a, g * b * b, g * a * b, g * a * b, 4 * g * (a * b) ** 2)
+
+
+LD = np.longdouble
+
+
+def direct_ext(x1, x2, starts, L, w, omega, order, Q, cross):
+    """the definition kept in EXTENDED precision from the DFT to the squared deviations: X_k by the direct windowed (detrended) DFT, the products
+    Z_k = X_k conj(Y_k) (auto: |X_k|^2), their mean (pass 1) and the mean squared deviation about it (pass 2), nothing rounded to double in between.
+    Returns ((XX, YY, Re mu, Im mu, M2) as floats, sqrt(M2), max_k |Z_k|). Segments with the same start are evaluated once."""
+    n = np.arange(L, dtype=LD)
+    co, si = np.cos(LD(omega) * n), np.sin(LD(omega) * n)
+    wl = np.asarray(w, dtype=np.float64).astype(LD)
+    us, inv = np.unique(np.asarray(starts, dtype=np.int64), return_inverse=True)
+    inv = np.asarray(inv).reshape(-1)
+    idx = us[:, None] + np.arange(L, dtype=np.int64)[None, :]
+    Ql = None if order < 1 else np.asarray(Q).astype(LD)
+
+    def dfts(z):
+        sg = np.asarray(z, dtype=np.float64)[idx].astype(LD)
+        if order == 0:
+            sg = sg - sg.mean(axis=1, keepdims=True)
+        elif order >= 1:
+            sg = sg - (sg @ Ql) @ Ql.T
+        sg = sg * wl
+        return (sg @ co)[inv], (-(sg @ si))[inv]
+    xr, xi = dfts(x1)
+    yr, yi = dfts(x2) if cross else (xr, xi)
+    K = len(inv)
+    xx, yy = xr * xr + xi * xi, yr * yr + yi * yi
+    if cross:
+        zr, zi = xr * yr + xi * yi, xi * yr - xr * yi
+    else:
+        zr, zi = xx, np.zeros(K, dtype=LD)
+    mr, mi = zr.mean(), zi.mean()                                     # pass 1
+    dr, di = zr - mr, zi - mi
+    m2 = (dr * dr + di * di).mean() if K >= 2 else LD(0)               # pass 2
+    return ((float(xx.mean()), float(yy.mean()), float(mr), float(mi), float(m2)), float(np.sqrt(m2)),
+            float(np.sqrt((zr * zr + zi * zi).max())))
+
+
+def m2_tight_tol(K: int, tre: float, tim: float, s: float, zmax: float) -> float:
+    """SOUND forward budget of the mean squared scatter (two-pass evaluation of the definition) against direct_ext -- relative to the SCATTER
+    and to the rounding of each Z_k, never to |mean|^2.
+    Per segment a kernel delivers Z^_k = Z_k + e_k with |Re e_k| <= tre, |Im e_k| <= tim: the module's budget of the cross-product components
+    (`tolerances`: Goertzel growth (L+4) min(L+1, 1/|sin w|) times the SUPREMUM over the segments of sum|x w|, so it bounds every segment and hence
+    their mean). |e_k| <= E0 = hypot(tre, tim). The reference's own Z~_k is off by at most E0/1024 (same operation count, unit roundoff 2^-64, no
+    recurrence growth). s = sqrt(M2) is the l2 norm of the centred vector / sqrt(K): a seminorm, so |s(Z^) - s(Z~)| <= E = E0 (1 + 2^-10) and
+    |M2(Z^) - M2(Z~)| <= 2 E s~ + E^2. The reduction in floating point returns (M2(Z^) + |d|^2)(1 + th): d = rounding error of the mean,
+    |d|^2 <= 2 (K u max|Z^|)^2 (any summation order; the deviations about the exact mean sum to zero, so d enters only squared), |th| <= 8 (K + 8) u
+    (a subtraction, two squares and an addition per term, a K-term mean; fused / reassociated evaluation included).
+    A formula that is algebraically the variance but cancels (E|z|^2 - |E z|^2: error ~ u |mean|^2) cannot meet this once s << |mean|."""
+    E = float(np.hypot(tre, tim)) * (1.0 + 2.0 ** -10)
+    d2 = 4.0 * (K * U * (zmax + E)) ** 2
+    th = 8.0 * (K + 8) * U
+    return 2.0 * E * s + E * E + d2 + th * ((s + E) ** 2 + d2)
 
 
 class InputModified(Exception):
@@ -428,22 +491,321 @@ def np_generated_vs_real(ctx, P: C.Part, rng: np.random.Generator) -> None:
                 P.disagreements.append({"op": "npgather", "shape": head.strip(), "expected_shape": list(want.shape), "case": case_dump("_gather_segments", c, None, "numpy")})
 
 
-def check_case(P: C.Part, name: str, backend: str, c, Q, imp) -> None:
+# ---------------------------------------------------------------- near-identical-segment records (seeded defect C01e and its family)
+LOCK_KINDS = ["carrier+noise", "periodic-exact", "locked-sine", "carrier+noise", "const", "dc+noise", "repeated-starts"]
+LOCK_K = [256, 17, 2, 3]
+
+
+def locked_record(rng: np.random.Generator, kind: str, N: int, P: int, L: int):
+    """two channels of length N whose segments at starts congruent mod P are (nearly) identical -> (x1, x2, omega of the carrier or None, eps).
+    carrier+noise : amp * waveform of period P (tabulated over ONE period, indexed n mod P) COMMON to both channels (own gain, own phase shift) plus
+                    independent white noise at 1e-10 .. 1e-6 of the carrier amplitude in each channel
+    periodic-exact: the same without noise: segments whose starts differ by multiples of P are bit-identical (M2 = 0 by the definition)
+    locked-sine   : sinusoids evaluated sample by sample at a frequency m/P (phase-locked to the segment grid), each channel its own phase and amplitude,
+                    noise floor none or 1e-12 .. 1e-7
+    const         : constant records (any order: the detrended segments are pure rounding)
+    dc+noise      : a constant with a relative noise of 1e-10 .. 1e-6 (DC-dominated: with order -1 near DC the segments are nearly identical; with
+                    orders 0, 1, 2 the constant is removed and what is left is far below the rounding scale of the raw record)
+    repeated-starts: an ordinary noisy record (the start vector makes the segments identical)"""
+    n = np.arange(N)
+    amp, amp2 = float(10 ** rng.uniform(-3, 3)), float(10 ** rng.uniform(-3, 3))
+    m = int(rng.integers(1, max(1, (P - 1) // 2) + 1))
+    om = 2 * np.pi * m / P
+    eps = 0.0
+    if kind in ("carrier+noise", "periodic-exact"):
+        k = np.arange(P)
+        tab = np.sin(2 * np.pi * m * k / P + float(rng.uniform(0, 2 * np.pi)))
+        if rng.random() < 0.4:                                          # a periodic waveform: harmonics and an offset
+            tab = tab + float(rng.uniform(-1, 1)) + 0.3 * float(rng.uniform(0, 1)) * rng.standard_normal(P)
+        sh = int(rng.integers(0, P))
+        x1, x2 = amp * tab[n % P], amp2 * tab[(n + sh) % P]
+        if kind == "carrier+noise":
+            eps = float(10 ** rng.uniform(-10, -6))
+            x1 = x1 + amp * eps * rng.standard_normal(N)
+            x2 = x2 + amp2 * eps * float(10 ** rng.uniform(-1, 1)) * rng.standard_normal(N)
+    elif kind == "locked-sine":
+        x1 = amp * np.sin(2 * np.pi * m * n / P + float(rng.uniform(0, 6)))
+        x2 = amp2 * np.sin(2 * np.pi * m * n / P + float(rng.uniform(0, 6)))
+        if rng.random() < 0.5:
+            eps = float(10 ** rng.uniform(-12, -7))
+            x1 = x1 + amp * eps * rng.standard_normal(N)
+            x2 = x2 + amp2 * eps * rng.standard_normal(N)
+    elif kind == "const":
+        x1, x2 = np.full(N, amp * float(rng.choice([-1.0, 1.0]))), np.full(N, amp2 * float(rng.uniform(-1, 1)))
+        om = None
+    elif kind == "dc+noise":
+        eps = float(10 ** rng.uniform(-10, -6))
+        x1 = amp * float(rng.choice([-1.0, 1.0])) * (1.0 + eps * rng.standard_normal(N))
+        x2 = amp2 * (1.0 + eps * float(10 ** rng.uniform(-1, 1)) * rng.standard_normal(N))
+        om = None
+    else:
+        x1 = rng.standard_normal(N) + float(rng.choice([0.0, 10.0])) * float(rng.standard_normal())
+        x2 = 0.5 * np.roll(x1, 2) + rng.standard_normal(N)
+        om = None
+    return np.ascontiguousarray(x1, dtype=np.float64), np.ascontiguousarray(x2, dtype=np.float64), om, eps
+
+
+def locked_kernel_case(rng: np.random.Generator, kind: str, K: int, small: bool) -> Dict[str, Any]:
+    """a kernel-level case (record(s), L, starts, window, omega) whose K segments are (nearly) identical: the carrier's period P divides the segment
+    spacing h (h < L overlapping, = L back to back, > L with gaps); starts = s0 + h * j with j a permutation (unsorted) or drawn with repetition.
+    `small` keeps L*K within reach of the CUDA simulator."""
+    P = int(rng.choice([4, 5, 6, 8] if small else [4, 5, 6, 8, 12, 16]))
+    if small:
+        L = int(rng.integers(max(3, P - 1), max(P, 2048 // K if K > 17 else 48) + 1))
+    else:
+        L = int(rng.choice([P * int(rng.integers(1, max(2, 64 // P) + 1)), int(rng.integers(3, 97)), 64]))
+    hq_max = max(1, min(24000 // (K * P), 3 * L // P + 1))
+    h = P * int(rng.integers(1, hq_max + 1))
+    sm = int(rng.choice([0, 0, 1, 2, 2, 3]))
+    if kind == "repeated-starts":
+        sm = 3
+    J = K if sm != 2 else max(2, K // 2)
+    if sm == 0:
+        j = rng.permutation(J)                                          # unsorted, all distinct
+    elif sm == 1:
+        j = np.arange(J)                                                # sorted
+    elif sm == 2:
+        j = rng.integers(0, J, size=K)                                  # unsorted with repeats
+    else:
+        j = np.full(K, int(rng.integers(0, J)))                         # one start repeated K times: identical segments whatever the record
+        if kind == "repeated-starts" and K >= 3 and rng.random() < 0.5:
+            j[rng.integers(0, K, size=max(1, K // 3))] = int(rng.integers(0, J))   # two distinct starts
+    s0 = int(rng.integers(0, P + 3))
+    starts = (s0 + h * np.asarray(j)).astype(np.int64)
+    N = int(starts.max() + L + int(rng.integers(0, 7)))
+    x1, x2, om_c, eps = locked_record(rng, kind, N, P, L)
+    wk = int(rng.integers(0, 5))
+    w = [np.hanning(L), np.hanning(L + 2)[1:-1] + 0.05, np.ones(L), rng.standard_normal(L), np.hanning(L)][wk] if L >= 3 else np.ones(L)
+    oc = int(rng.integers(0, 10))
+    if om_c is None:                                                    # DC-dominated: inside the main lobe, exactly DC, or anywhere
+        omega = [2 * np.pi * float(rng.uniform(0.3, 2.5)) / L, 2 * np.pi * float(rng.uniform(0.3, 2.5)) / L, 0.0, float(rng.uniform(0.05, 3.0)),
+                 2 * np.pi * int(rng.integers(0, L // 2 + 1)) / L][oc % 5]
+        ocl = 10 + oc % 5
+    elif oc < 4:
+        omega, ocl = om_c, 20                                           # at the carrier
+    elif oc < 7:
+        omega, ocl = om_c + 2 * np.pi * float(rng.uniform(-0.6, 0.6)) / L, 21   # fractional bin next to it
+    elif oc < 8:
+        omega, ocl = float(rng.uniform(0.05, 3.0)), 22
+    else:
+        omega, ocl = [0.0, float(np.pi)][oc % 2], 23
+    omega = float(min(max(omega, 0.0), np.pi))
+    return {"L": L, "N": N, "starts": starts, "w": np.ascontiguousarray(w, dtype=np.float64), "omega": omega, "x1": x1, "x2": x2,
+            "omega_class": ocl, "start_mode": 10 + sm, "kind": kind, "P": P, "h": h, "eps": eps}
+
+
+STAT = ["mean|X|^2", "mean|Y|^2", "Re mean X conj Y", "Im mean X conj Y", "M2"]
+
+
+def kclass(K: int) -> str:
+    return str(K) if K in (1, 2, 3, 17, 256) else ("4..16" if K < 17 else "18+")
+
+
+def tight_m2(P: C.Part, label: str, key, K: int, m2: float, ext, sx: float, zmax: float, tol, sig: Dict[str, Any], rp: Dict[str, Any]) -> None:
+    """the scatter statistic against the extended-precision two-pass evaluation of the definition, budget relative to the scatter (m2_tight_tol);
+    a mean of squares is never negative. Counts the case as `tight:detectable` when an error of u |mean|^2 / 4 in M2 would be seen."""
+    tT = m2_tight_tol(K, tol[2], tol[3], sx, zmax)
+    mu2 = ext[2] ** 2 + ext[3] ** 2
+    if not (m2 >= 0.0 and np.isfinite(m2)):
+        P.violations.append(C.Violation(
+            what=f"{label}: M2 = {m2!r} is not a finite non-negative number (mean squared scatter of {K} segment products; definition gives {ext[4]!r})",
+            signature=dict(sig, component=4, sub="M2-nonneg"), replay=dict(rp, observed_M2=m2, expected_M2=ext[4])))
+    elif not abs(m2 - ext[4]) <= tT:
+        P.violations.append(C.Violation(
+            what=f"{label}: M2 = {m2!r} but the mean squared scatter of the {K} per-segment cross products about their mean, evaluated directly "
+                 f"(two passes, extended precision), is {ext[4]!r} (tol {tT:.3g} = 2 E s + E^2 + reduction, E = {float(np.hypot(tol[2], tol[3])):.3g} per-segment "
+                 f"rounding budget, s = sqrt(M2) = {sx:.3g}; |mean|^2 = {mu2:.6g}, u|mean|^2 = {U * mu2:.3g}: the error is of the size of the rounding "
+                 f"of |mean|^2, not of the scatter)",
+            signature=dict(sig, component=4, sub="tight-M2"), replay=dict(rp, observed_M2=m2, expected_M2=ext[4], tol_M2=tT)))
+    if K >= 2 and tT < 0.25 * U * mu2:
+        P.hit("tight:detectable")
+        P.hit("tight:" + ("identical-segments" if sx <= 1e-6 * np.sqrt(tT) else "near-identical"))
+        P.nontrivial.add(("tight",) + tuple(key) + (kclass(K),))
+
+
+def reference(name: str, c, Q):
+    """everything check_case needs that does not depend on the backend: (direct 5-tuple, tolerances, extended 5-tuple, sqrt(M2), max|Z_k|)"""
     order = order_of(name, Q)
     cross = "csd" in name
     ref, S1, S2 = direct(c["x1"], c["x2"], c["starts"], c["L"], c["w"], c["omega"], order, Q, cross)
     tol = tolerances(c["L"], c["omega"], S1, S2, c["x1"], c["x2"] if cross else c["x1"], c["starts"], c["w"], order, Q)
+    ext, sx, zmax = direct_ext(c["x1"], c["x2"], c["starts"], c["L"], c["w"], c["omega"], order, Q, cross)
+    return ref, tol, ext, sx, zmax
+
+
+def check_case(P: C.Part, name: str, backend: str, c, Q, imp, R=None) -> None:
+    ref, tol, ext, sx, zmax = R if R is not None else reference(name, c, Q)
     P.cases += 1
     if len(c["starts"]) >= 2 or c["L"] >= 3:
         P.nontrivial.add((name, backend, c["L"], len(c["starts"]), c["omega_class"]))
     P.hit(backend)
     bad = cmp5(imp, ref, tol)
     if bad:
-        comp = ["mean|X|^2", "mean|Y|^2", "Re mean X conj Y", "Im mean X conj Y", "M2"][bad[0]]
+        comp = STAT[bad[0]]
         P.violations.append(C.Violation(
             what=f"{backend} {name}: {comp} = {imp[bad[0]]!r} but direct windowed DFT gives {ref[bad[0]]!r} (tol {tol[bad[0]]:.3g}), L={c['L']} K={len(c['starts'])} omega={c['omega']}",
             signature={"backend": backend, "fn": name, "component": bad[0]},
             replay={"case": case_dump(name, c, Q, backend), "observed": imp, "expected": ref, "tol": tol}))
+        return
+    # the scatter statistic, tightly (every case of every stream; the near-identical-segment stream makes it sharp)
+    K = len(c["starts"])
+    kind = c.get("kind", "generic")
+    tight_m2(P, f"{backend} {name} ({kind} record, L={c['L']} K={K} omega={c['omega']})", (name, backend, kind), K, float(imp[4]), ext, sx, zmax, tol,
+             {"backend": backend, "fn": name}, {"case": case_dump(name, c, Q, backend), "observed": imp, "expected": ext, "tol": tol, "kind": kind})
+
+
+def locked_stream(ctx, P: C.Part, rng: np.random.Generator, cuda, intensive: bool) -> None:
+    """all 12 + 6 kernels on records whose segments are (nearly) identical: there M2 is many orders below |mean|^2 and only an evaluation that
+    takes the deviations about the mean BEFORE squaring resolves it (seeded defect C01e: one-pass E|z|^2 - |E z|^2 in the shared Numba/CUDA reducer)."""
+    # corpus witness (C01e): a carrier of period 8 common to both channels, independent noise 1e-8 of it, 256 back-to-back unsorted segments of 64, Hann
+    r0 = np.random.default_rng(20240501)
+    L0, K0 = 64, 256
+    N0 = L0 * K0 + 17
+    n0 = np.arange(N0)
+    wit = {"L": L0, "N": N0, "starts": (np.arange(K0, dtype=np.int64) * L0)[r0.permutation(K0)], "w": np.hanning(L0).astype(np.float64),
+           "omega": 2 * np.pi * 8 / L0, "x1": np.cos(2 * np.pi * 8 * n0 / L0 + 0.3) + 1e-8 * r0.standard_normal(N0),
+           "x2": 0.7 * np.cos(2 * np.pi * 8 * n0 / L0 + 1.1) + 1e-8 * r0.standard_normal(N0), "omega_class": 20, "start_mode": 10,
+           "kind": "carrier+noise"}
+    n = ctx.scale(168, 1344) * (2 if intensive else 1)              # 168 = every (kind, K) combination once for each of the six functions
+    n_cuda = 0
+    for i in range(-6, n):
+        if ctx.time_left() < 15 or len(P.violations) >= 5:
+            break
+        name = NUMBA[i % 6]
+        g = max(i, 0) // 6
+        kind, K = LOCK_KINDS[g % len(LOCK_KINDS)], LOCK_K[g % len(LOCK_K)]
+        with_cuda = cuda is not None and i >= 0 and g % (3 if intensive or ctx.thorough else 9) == 0      # the simulator costs ~0.2 s a call
+        c = wit if i < 0 else locked_kernel_case(rng, kind, K, small=with_cuda)
+        if i < 0 and name.endswith("auto") and "poly" not in name:
+            c = dict(wit, omega=2 * np.pi * 8.37 / L0, omega_class=21)       # fractional bin as well
+        Q = None
+        if "poly" in name:
+            from speckit.core import _build_Q
+            Q = _build_Q(c["L"], 1 + (g + i) % 2)
+        try:
+            R = reference(name, c, Q)
+            check_case(P, name, "numba", c, Q, impl_call(name, c, Q), R)
+            check_case(P, name, "numpy", c, Q, impl_call(name + "_np", c, Q), R)
+            if with_cuda:
+                check_case(P, name, "cuda-sim", c, Q, cuda.call(name, c, Q), R)
+                n_cuda += 1
+        except InputModified:
+            continue                                                    # reported by the generic stream
+        except Exception as ex:
+            P.violations.append(C.Violation(what=f"{name} raised {ex!r} on an in-range near-identical-segment case", signature={"fn": name, "raises": True},
+                                            replay={"case": case_dump(name, c, Q, "?"), "error": repr(ex)}))
+            continue
+        P.hit(f"locked:{c['kind']}")
+        P.hit(f"locked:K={len(c['starts'])}")
+        P.hit(f"locked:start_mode_{c['start_mode']}")
+        if i in (0, 7):
+            P.sample({"op": "oracle-locked", **case_summary(name, c, Q), "kind": c["kind"], "period": c.get("P"), "spacing": c.get("h"), "rel_noise": c.get("eps")})
+    if n_cuda:
+        P.notes.append(f"near-identical-segment stream: {n_cuda} cases also through the CUDA host functions (simulator)")
+
+
+AN_KINDS = ["carrier+noise", "periodic-exact", "carrier+noise", "dc+noise", "locked-sine", "const"]
+
+
+def analyzer_locked_case(rng: np.random.Generator, i: int) -> Dict[str, Any]:
+    """case i of the public-entry stream: SpectrumAnalyzer(data, fs, order, win, olap, backend).compute_single_bin(freq, L=L) on a record whose
+    segments (hop = L (1 - olap), a multiple of the carrier's period) are (nearly) identical. cross = i % 2, backend numba / numpy = (i // 2) % 2,
+    order = (i // 4) % 4 - 1; kind and K in {256, 17, 2, 3} rotate with i // 4."""
+    cross = i % 2 == 1
+    backend = ["numba", "numpy"][(i // 2) % 2]
+    g = i // 4
+    order = [-1, 0, 1, 2][g % 4]
+    kind = AN_KINDS[(g + g // 4) % len(AN_KINDS)]
+    K = LOCK_K[(g + g // 4) % 4]
+    P = int(rng.choice([4, 5, 6, 8, 10, 12, 16]))
+    q = int(rng.integers(1, max(1, (64 if K > 17 else 256) // (4 * P)) + 1))
+    L = 4 * P * q
+    olap = float(rng.choice([0.0, 0.5, 0.75]))
+    h = int(round(L * (1 - olap)))
+    N = L + (K - 1) * h
+    x1, x2, om_c, eps = locked_record(rng, kind, N, P, L)
+    if om_c is None:
+        nu = [float(rng.uniform(0.3, 2.5)) / L, float(rng.uniform(0.3, 2.5)) / L, 0.0, float(rng.uniform(0.01, 0.49))][int(rng.integers(0, 4))]
+    else:
+        nu = om_c / (2 * np.pi) + (float(rng.uniform(-0.6, 0.6)) / L if rng.random() < 0.4 else 0.0)
+    fs = float(rng.choice([1.0, 2.0, 64.0, 1000.0, float(rng.uniform(0.1, 1e4))]))
+    win, psll = [("hann", None), ("hann", None), ("kaiser", 60.0), ("kaiser", 150.0), ("kaiser", 200.0)][int(rng.integers(0, 5))]
+    opts: Dict[str, Any] = {"order": order, "win": win, "olap": olap, "backend": backend}
+    if psll is not None:
+        opts["psll"] = psll
+    return {"x": x1, "y": x2 if cross else None, "fs": fs, "opts": opts, "freq": float(min(max(nu, 0.0), 0.5) * fs), "L": L, "kind": kind, "K": K}
+
+
+def check_analyzer(P: C.Part, a: Dict[str, Any]) -> None:
+    """XX_mean, YY_mean, XY, XY_M2 of the single bin the analyzer returns vs the definition evaluated from the bin's OWN plan (starts, L), the window built
+    independently (_an.window) and the least-squares trend from an independently orthonormalised basis (_an.poly_basis)."""
+    import logging
+    import warnings
+    from . import _an as _AN
+    from speckit.analysis import SpectrumAnalyzer
+    x, y, fs, opts = a["x"], a["y"], float(a["fs"]), dict(a["opts"])
+    cross = y is not None
+    order = int(opts["order"])
+    data = np.vstack([x, y]) if cross else x
+    logging.disable(logging.CRITICAL)
+    try:
+        with warnings.catch_warnings(), np.errstate(all="ignore"):
+            warnings.simplefilter("ignore")
+            res = SpectrumAnalyzer(data, fs, **opts).compute_single_bin(float(a["freq"]), L=int(a["L"]))
+            obs = (float(res.XX_mean[0]), float(res.YY_mean[0]), float(np.real(res.XY[0])), float(np.imag(res.XY[0])), float(res.XY_M2[0]))
+    finally:
+        logging.disable(logging.NOTSET)
+    L, starts = int(res.L[0]), np.asarray(res.D[0], dtype=np.int64)
+    K = len(starts)
+    om = 2 * np.pi * float(res.f[0]) / fs
+    w = np.asarray(_AN.window(opts["win"], L, opts.get("psll")), dtype=np.float64)
+    Qref = np.asarray(_AN.poly_basis(L, order), dtype=LD) if order >= 1 else None
+    x2 = y if cross else x
+    ext, sx, zmax = direct_ext(x, x2, starts, L, w, om, order, Qref, cross)
+    tol = tolerances(L, om, 0.0, 0.0, x, x2, starts, w, order, None if Qref is None else np.asarray(Qref, dtype=np.float64))
+    if order >= 1:                                                      # projector difference allowed to the library's double-precision QR basis
+        ra = max(float(np.abs(x[int(st):int(st) + L] * w).sum()) for st in starts)
+        rb = max(float(np.abs(x2[int(st):int(st) + L] * w).sum()) for st in starts)
+        pj = 1e-12
+        tol = (tol[0] + pj * ra * ra, tol[1] + pj * rb * rb, tol[2] + pj * ra * rb, tol[3] + pj * ra * rb, tol[4] + 4 * pj * (ra * rb) ** 2)
+    be = str(opts.get("backend"))
+    label = (f"SpectrumAnalyzer(..., order={order}, win={opts['win']}, olap={opts['olap']}, backend={be}).compute_single_bin(f={float(a['freq'])!r}, L={L}) "
+             f"{'cross' if cross else 'auto'} {a['kind']} record (fs={fs!r}, K={K})")
+    sig = {"entry": "compute_single_bin", "backend": be, "mode": "cross" if cross else "auto", "order": order}
+    rp = {"analyzer": {"x": np.asarray(x).tolist(), "y": None if y is None else np.asarray(y).tolist(), "fs": fs, "opts": opts, "freq": float(a["freq"]),
+                       "L": int(a["L"]), "kind": a["kind"]}}
+    P.cases += 1
+    P.hit(f"analyzer:{be}")
+    P.hit(f"analyzer:order{order}:{'cross' if cross else 'auto'}")
+    P.hit(f"analyzer:K={K}")
+    if K >= 2:
+        P.nontrivial.add(("analyzer", be, cross, order, a["kind"], kclass(K)))
+    bad = cmp5(obs, ext, tol)
+    if bad:
+        k = bad[0]
+        P.violations.append(C.Violation(
+            what=f"{label}: {('XX_mean', 'YY_mean', 'Re XY', 'Im XY', 'XY_M2')[k]} = {obs[k]!r} but the definition evaluated on the bin's own segments gives "
+                 f"{ext[k]!r} (tol {tol[k]:.3g})", signature=dict(sig, component=k), replay=dict(rp, observed=obs, expected=ext)))
+        return
+    tight_m2(P, label + " XY_M2", ("analyzer", be, "cross" if cross else "auto", order), K, obs[4], ext, sx, zmax, tol, sig, rp)
+
+
+def analyzer_stream(ctx, P: C.Part, rng: np.random.Generator, intensive: bool) -> None:
+    n = ctx.scale(96, 960) * (2 if intensive else 1)
+    for i in range(n):
+        if ctx.time_left() < 12 or len(P.violations) >= 5:
+            break
+        a = analyzer_locked_case(rng, i)
+        try:
+            check_analyzer(P, a)
+        except Exception as ex:
+            P.violations.append(C.Violation(
+                what=f"compute_single_bin raised {ex!r} on an in-range {a['kind']} record (opts {a['opts']}, L={a['L']}, N={len(a['x'])})",
+                signature={"entry": "compute_single_bin", "raises": True},
+                replay={"analyzer": {"x": a["x"].tolist(), "y": None if a["y"] is None else a["y"].tolist(), "fs": a["fs"], "opts": a["opts"],
+                                     "freq": a["freq"], "L": a["L"], "kind": a["kind"]}, "error": repr(ex)}))
+        if i == 0:
+            P.sample({"op": "oracle-analyzer", "kind": a["kind"], "N": len(a["x"]), "fs": a["fs"], "opts": a["opts"], "freq": a["freq"], "L": a["L"]})
 
 
 def oracle(ctx, intensive: bool = False, hints: List[Dict[str, Any]] = ()) -> C.Part:
@@ -472,10 +834,11 @@ def oracle(ctx, intensive: bool = False, hints: List[Dict[str, Any]] = ()) -> C.
                 continue
             Q = qfor(name, cc["L"], ctx.rng)
             try:
-                check_case(P, name, "numba", cc, Q, impl_call(name, cc, Q))
-                check_case(P, name, "numpy", cc, Q, impl_call(name + "_np", cc, Q))
+                R = reference(name, cc, Q)
+                check_case(P, name, "numba", cc, Q, impl_call(name, cc, Q), R)
+                check_case(P, name, "numpy", cc, Q, impl_call(name + "_np", cc, Q), R)
                 if cuda is not None and cc["L"] * len(cc["starts"]) <= 400 and (i % 4 == 0 or intensive or i < len(cases)):
-                    check_case(P, name, "cuda-sim", cc, Q, cuda.call(name, cc, Q))
+                    check_case(P, name, "cuda-sim", cc, Q, cuda.call(name, cc, Q), R)
             except InputModified as ex:
                 P.violations.append(C.Violation(
                     what=f"{name} (or its NumPy fallback) modified its input array(s) {ex} in place: later bins on the same record no longer "
@@ -539,6 +902,13 @@ def oracle(ctx, intensive: bool = False, hints: List[Dict[str, Any]] = ()) -> C.
         except Exception as ex:
             P.violations.append(C.Violation(what=f"{name} / _build_Q(L={L}, order={order}) raised {ex!r}", signature={"fn": name, "raises": True, "sub": "trend-is-least-squares"},
                                             replay={"L": L, "order": order, "error": repr(ex)}))
+    # near-identical-segment records: kernels (Numba, NumPy, CUDA simulator) and the public single-bin entry on both backends. Their random choices
+    # come from a child generator seeded by ONE integer drawn here, after everything above.
+    lrng = np.random.default_rng(int(ctx.rng.integers(0, 2 ** 31 - 1)))
+    locked_stream(ctx, P, lrng, cuda, intensive)
+    analyzer_stream(ctx, P, lrng, intensive)
+    P.notes.append(f"near-identical-segment region: {P.histogram.get('tight:detectable', 0)} evaluations where an error of u*|mean|^2/4 in M2 would be seen "
+                   f"({len([k for k in P.nontrivial if k and k[0] == 'tight'])} distinct (function/entry, backend, kind, K))")
     if cuda:
         cuda.close()
     return P
@@ -547,9 +917,16 @@ def oracle(ctx, intensive: bool = False, hints: List[Dict[str, Any]] = ()) -> C.
 def replay(ctx, data) -> C.Part:
     P = C.Part()
     for v in data.get("violations", []):
+        if "analyzer" in v["replay"]:          # public single-bin entry on a near-identical-segment record
+            a = v["replay"]["analyzer"]
+            check_analyzer(P, {"x": np.array(a["x"], dtype=np.float64), "y": None if a["y"] is None else np.array(a["y"], dtype=np.float64),
+                               "fs": a["fs"], "opts": a["opts"], "freq": a["freq"], "L": a["L"], "kind": a.get("kind", "?")})
+            continue
+        if "case" not in v["replay"]:
+            continue
         cd = v["replay"]["case"]
         c = {"L": cd["L"], "N": len(cd["x1"]), "starts": np.array(cd["starts"], dtype=np.int64), "w": np.array(cd["w"]), "omega": cd["omega"],
-             "x1": np.array(cd["x1"]), "x2": np.array(cd["x2"]), "omega_class": -1, "start_mode": -1}
+             "x1": np.array(cd["x1"]), "x2": np.array(cd["x2"]), "omega_class": -1, "start_mode": -1, "kind": v["replay"].get("kind", "generic")}
         Q = None if cd["Q"] is None else np.array(cd["Q"])
         name = cd["fn"]
         be = cd["backend"]
